@@ -141,13 +141,8 @@ Definition marshal_gen (strict : bool) (a : sx) : sx :=
 Definition run_marshal_any : sx -> sx := marshal_gen false.
 Definition run_marshal_canon : sx -> sx := marshal_gen true.
 
-(* a single request of 8 GiB or more cannot be served under the child's
-   address-space limit: fatal error "out of memory" *)
-Definition crash_threshold : N := 8589934592.
-
 Definition out_unmarshal (r : res value * st) : sx :=
   let '(o, s) := r in
-  if N.leb crash_threshold (peak s) then SA "crash" else
   match o with
   | Ok v => SL [sx_of_value v; sx_nat (length (inp s))]
   | Err _ => SA "err"
@@ -173,14 +168,6 @@ Definition unmarshal_gen (strict : bool) (a : sx) : sx :=
 Definition run_unmarshal_any : sx -> sx := unmarshal_gen false.
 Definition run_unmarshal_canon : sx -> sx := unmarshal_gen true.
 
-(* c10.alloc: ('Type bytes) -> (alloc, peak) of the modelled decoder (evidence only) *)
-Definition run_alloc (a : sx) : sx :=
-  match a with
-  | SL [SA name; SBytes bs] =>
-      let '(_, s) := go_unmarshal tl_bindings (GNamed name) bs in SL [SN (alloc s); SN (peak s)]
-  | _ => sx_err "alloc"
-  end.
-
 Fixpoint string_of_bytes (l : bytes) : string :=
   match l with [] => EmptyString | b :: t => String (ascii_of_N b) (string_of_bytes t) end.
 Fixpoint bytes_of_string (s : string) : bytes :=
@@ -197,7 +184,6 @@ Definition run_reqdecode (a : sx) : sx :=
       | Some (_, tag2, gt, tlname) =>
           if N.eqb tag2 tag then
             let '(o, s) := go_unmarshal tl_bindings (GNamed gt) (skipn 4 bs) in
-            if N.leb crash_threshold (peak s) then SA "crash" else
             match o with
             | Ok v => SL [SN tag; SBytes (bytes_of_string tlname); sx_of_value v]
             | Err _ => unknown
@@ -209,22 +195,43 @@ Definition run_reqdecode (a : sx) : sx :=
   | _ => sx_err "reqdecode"
   end.
 
-(* c10.request: ('Method value|'none) -> payload handed to liteServerRequest *)
+(* c10.request: ('Method value|'none response) -> (payload handed to
+   liteServerRequest, what the method makes of the response) *)
+Definition out_response (r : res response) : sx :=
+  match r with
+  | Ok (RResult v) => SL [SA "result"; sx_of_value v]
+  | Ok (RError v) => SL [SA "lserror"; sx_of_value v]
+  | Err _ => SA "err"
+  | Panic _ => SA "panic"
+  end.
+
 Definition run_request (a : sx) : sx :=
   match a with
-  | SL [SA mname; sv] =>
+  | SL [SA mname; sv; SBytes resp] =>
       match find (fun m => String.eqb (m_name m) mname) tl_methods with
       | Some m =>
-          match sv with
-          | SA _ => out_bytes (go_request tl_bindings m None)
-          | _ => match value_of_sx sv with
-                 | Some v => out_bytes (go_request tl_bindings m (Some v))
-                 | None => sx_err "value"
-                 end
+          let req := match sv with SA _ => Some None | _ => option_map Some (value_of_sx sv) end in
+          match req with
+          | Some rq =>
+              match go_request tl_bindings m rq with
+              | Ok payload => SL [SBytes payload; out_response (go_response tl_bindings m resp)]
+              | Err _ => SA "err"
+              | Panic _ => SA "panic"
+              end
+          | None => sx_err "value"
           end
       | None => sx_err "method"
       end
   | _ => sx_err "request"
+  end.
+
+(* c10.enclen: n -> tl.EncodeLength(n); below 2^24 it must be the TL length prefix *)
+Definition run_enclen (a : sx) : sx :=
+  match a with
+  | SN n =>
+      let g := go_encode_length n in
+      if N.ltb n two24 && negb (bytes_eqb g (bytes_header n)) then SA "specdiff" else SBytes g
+  | _ => sx_err "enclen"
   end.
 
 (* c10.sizeof: 'Type -> unsafe.Sizeof *)
@@ -251,5 +258,5 @@ Definition run (name : string) (a : sx) : sx :=
   else if is "c10.request" then run_request a
   else if is "c10.sizeof" then run_sizeof a
   else if is "c10.camel" then run_camel a
-  else if is "c10.alloc" then run_alloc a
+  else if is "c10.enclen" then run_enclen a
   else sx_err "unknown case kind".
